@@ -229,7 +229,11 @@ fn bstr(content: &[u8]) -> Vec<u8> {
 /// Place a header map (bytes) into a carrier structure, in the protected or unprotected slot.
 fn carry_header(rng: &mut Rng, hdr: &[u8]) -> (Vec<u8>, &'static str) {
     let protected = rng.bool();
-    let (p, u) = if protected { (bstr(hdr), vec![0xa0]) } else { (vec![0x40], hdr.to_vec()) };
+    let (p, u) = if protected {
+        (bstr(hdr), vec![0xa0])
+    } else {
+        (vec![0x40], hdr.to_vec())
+    };
     let mut o = Vec::new();
     let which = rng.below(10);
     match which {
@@ -293,7 +297,9 @@ fn carry_header(rng: &mut Rng, hdr: &[u8]) -> (Vec<u8>, &'static str) {
         }
         _ => {
             // COSE_KDF_Context with the header in SuppPubInfo.protected
-            o.extend([0x84, 0x01, 0x83, 0xf6, 0xf6, 0xf6, 0x83, 0xf6, 0xf6, 0xf6, 0x82, 0x18, 0x80]);
+            o.extend([
+                0x84, 0x01, 0x83, 0xf6, 0xf6, 0xf6, 0x83, 0xf6, 0xf6, 0xf6, 0x82, 0x18, 0x80,
+            ]);
             o.extend(bstr(hdr));
             (o, "CoseKdfContext")
         }
@@ -332,113 +338,118 @@ fn carry_value(rng: &mut Rng, val: &[u8]) -> (Vec<u8>, &'static str) {
     }
 }
 
-
 /// Wide rather than deep: n siblings (signers, recipients, keys, extra parameters, critical
 /// labels, counter signatures, supplementary strings, claims).  `full` fills the whole size cap.
 pub fn gen_wide(rng: &mut Rng, cap: usize, full: bool) -> (Vec<u8>, &'static str) {
     let sig0: &[u8] = &[0x83, 0x40, 0xa0, 0x40];
     let rcpt0: &[u8] = &[0x83, 0x40, 0xa0, 0xf6];
 
-            // wide rather than deep: many siblings (signers, recipients, keys, extra parameters)
-            // n items; the per-item size differs per shape, each arm clamps n to what fits into `cap`
-            let n = if full { cap } else { rng.log_uniform(1, cap.max(2) as u64) as usize };
-            match rng.below(11) {
-                8 | 9 | 10 => {
-                    // n distinct TEXT labels (3 characters each) in a header / claims set / key
-                    let n = n.min(cap / 6).min(400_000);
-                    let which = rng.below(3);
-                    let mut o = Vec::new();
-                    if which == 2 {
-                        o.extend(head(5, n as u64 + 1));
-                        o.extend([0x01, 0x01]);
-                    } else {
-                        o.extend(head(5, n as u64));
-                    }
-                    for i in 0..n {
-                        let c = |k: usize| b'a' + ((i / 26usize.pow(k as u32)) % 26) as u8;
-                        o.extend([0x64, c(0), c(1), c(2), c(3), 0x00]);
-                    }
-                    match which {
-                        0 => carry_header(rng, &o),
-                        1 => (o, "ClaimsSet"),
-                        _ => (o, "CoseKey"),
-                    }
-                }
-                4 => {
-                    // array of n counter signatures in a header
-                    let n = n.min(cap / 5);
-                    let mut o = vec![0xa1, 0x07];
-                    o.extend(head(4, n.max(2) as u64));
-                    for _ in 0..n.max(2) {
-                        o.extend_from_slice(sig0);
-                    }
-                    carry_header(rng, &o)
-                }
-                5 => {
-                    // n critical labels
-                    let n = n.min(cap.saturating_sub(8)).max(1);
-                    let mut o = vec![0xa1, 0x02];
-                    o.extend(head(4, n as u64));
-                    for i in 0..n {
-                        o.push(if i % 2 == 0 { 0x01 } else { 0x60 });
-                    }
-                    carry_header(rng, &o)
-                }
-                6 => {
-                    // KDF context with n supplementary private info strings
-                    let n = n.min(cap.saturating_sub(24)).max(1);
-                    let mut o = head(4, 4 + n as u64);
-                    o.extend([0x01, 0x83, 0xf6, 0xf6, 0xf6, 0x83, 0xf6, 0xf6, 0xf6, 0x82, 0x00, 0x40]);
-                    o.resize(o.len() + n, 0x40);
-                    (o, "CoseKdfContext")
-                }
-                7 => {
-                    // n claims
-                    let n = n.min(cap / 8);
-                    let mut o = head(5, n as u64);
-                    for i in 0..n {
-                        o.extend(head(1, 65536 + i as u64));
-                        o.push(0x00);
-                    }
-                    (o, "ClaimsSet")
-                }
-                0 => {
-                    let n = n.min(cap / 4);
-                    let mut o = vec![0x84, 0x40, 0xa0, 0xf6];
-                    o.extend(head(4, n as u64));
-                    for _ in 0..n {
-                        o.extend_from_slice(sig0);
-                    }
-                    (o, "CoseSign")
-                }
-                1 => {
-                    let n = n.min(cap / 4);
-                    let mut o = vec![0x84, 0x40, 0xa0, 0xf6];
-                    o.extend(head(4, n as u64));
-                    for _ in 0..n {
-                        o.extend_from_slice(rcpt0);
-                    }
-                    (o, "CoseEncrypt")
-                }
-                2 => {
-                    let n = n.min(cap / 3);
-                    let mut o = head(4, n as u64);
-                    for _ in 0..n {
-                        o.extend([0xa1, 0x01, 0x01]);
-                    }
-                    (o, "CoseKeySet")
-                }
-                _ => {
-                    let n = n.min(cap / 6);
-                    let mut o = head(5, n as u64);
-                    for i in 0..n {
-                        o.extend(head(0, 1000 + i as u64));
-                        o.push(0x00);
-                    }
-                    carry_header(rng, &o)
-                }
+    // wide rather than deep: many siblings (signers, recipients, keys, extra parameters)
+    // n items; the per-item size differs per shape, each arm clamps n to what fits into `cap`
+    let n = if full {
+        cap
+    } else {
+        rng.log_uniform(1, cap.max(2) as u64) as usize
+    };
+    match rng.below(11) {
+        8 | 9 | 10 => {
+            // n distinct TEXT labels (3 characters each) in a header / claims set / key
+            let n = n.min(cap / 6).min(400_000);
+            let which = rng.below(3);
+            let mut o = Vec::new();
+            if which == 2 {
+                o.extend(head(5, n as u64 + 1));
+                o.extend([0x01, 0x01]);
+            } else {
+                o.extend(head(5, n as u64));
+            }
+            for i in 0..n {
+                let c = |k: usize| b'a' + ((i / 26usize.pow(k as u32)) % 26) as u8;
+                o.extend([0x64, c(0), c(1), c(2), c(3), 0x00]);
+            }
+            match which {
+                0 => carry_header(rng, &o),
+                1 => (o, "ClaimsSet"),
+                _ => (o, "CoseKey"),
             }
         }
+        4 => {
+            // array of n counter signatures in a header
+            let n = n.min(cap / 5);
+            let mut o = vec![0xa1, 0x07];
+            o.extend(head(4, n.max(2) as u64));
+            for _ in 0..n.max(2) {
+                o.extend_from_slice(sig0);
+            }
+            carry_header(rng, &o)
+        }
+        5 => {
+            // n critical labels
+            let n = n.min(cap.saturating_sub(8)).max(1);
+            let mut o = vec![0xa1, 0x02];
+            o.extend(head(4, n as u64));
+            for i in 0..n {
+                o.push(if i % 2 == 0 { 0x01 } else { 0x60 });
+            }
+            carry_header(rng, &o)
+        }
+        6 => {
+            // KDF context with n supplementary private info strings
+            let n = n.min(cap.saturating_sub(24)).max(1);
+            let mut o = head(4, 4 + n as u64);
+            o.extend([
+                0x01, 0x83, 0xf6, 0xf6, 0xf6, 0x83, 0xf6, 0xf6, 0xf6, 0x82, 0x00, 0x40,
+            ]);
+            o.resize(o.len() + n, 0x40);
+            (o, "CoseKdfContext")
+        }
+        7 => {
+            // n claims
+            let n = n.min(cap / 8);
+            let mut o = head(5, n as u64);
+            for i in 0..n {
+                o.extend(head(1, 65536 + i as u64));
+                o.push(0x00);
+            }
+            (o, "ClaimsSet")
+        }
+        0 => {
+            let n = n.min(cap / 4);
+            let mut o = vec![0x84, 0x40, 0xa0, 0xf6];
+            o.extend(head(4, n as u64));
+            for _ in 0..n {
+                o.extend_from_slice(sig0);
+            }
+            (o, "CoseSign")
+        }
+        1 => {
+            let n = n.min(cap / 4);
+            let mut o = vec![0x84, 0x40, 0xa0, 0xf6];
+            o.extend(head(4, n as u64));
+            for _ in 0..n {
+                o.extend_from_slice(rcpt0);
+            }
+            (o, "CoseEncrypt")
+        }
+        2 => {
+            let n = n.min(cap / 3);
+            let mut o = head(4, n as u64);
+            for _ in 0..n {
+                o.extend([0xa1, 0x01, 0x01]);
+            }
+            (o, "CoseKeySet")
+        }
+        _ => {
+            let n = n.min(cap / 6);
+            let mut o = head(5, n as u64);
+            for i in 0..n {
+                o.extend(head(0, 1000 + i as u64));
+                o.push(0x00);
+            }
+            carry_header(rng, &o)
+        }
+    }
+}
 
 /// One nesting case.  `cap` bounds the size in bytes.
 pub fn gen_nest(rng: &mut Rng, cap: usize) -> Case {
@@ -595,7 +606,12 @@ pub fn gen_nest_opt(rng: &mut Rng, cap: usize, full_depth: bool) -> Case {
         }
         _ => gen_wide(rng, cap, false),
     };
-    Case { bytes, faults: vec![NEST_KINDS[kind].to_string()], base_type: ty.to_string(), depth: Some(drawn.get()) }
+    Case {
+        bytes,
+        faults: vec![NEST_KINDS[kind].to_string()],
+        base_type: ty.to_string(),
+        depth: Some(drawn.get()),
+    }
 }
 
 // ------------------------------------------------------------------------------------------
@@ -608,7 +624,10 @@ fn subst_palette(rng: &mut Rng) -> Item {
         0..=5 => Item::array((0..n).map(|i| Item::uint(i as u64)).collect()),
         6 => Item::map(vec![]),
         7 => Item::map(vec![(Item::uint(1), Item::uint(1))]),
-        8 => Item::map(vec![(Item::uint(1), Item::uint(1)), (Item::uint(1), Item::uint(2))]),
+        8 => Item::map(vec![
+            (Item::uint(1), Item::uint(1)),
+            (Item::uint(1), Item::uint(2)),
+        ]),
         9 => Item::bytes(&[]),
         10 => Item::bytes(&[1, 2, 3]),
         11 => Item::text(""),
@@ -619,9 +638,9 @@ fn subst_palette(rng: &mut Rng) -> Item {
         16 => Item::bool(true),
         17 => Item::uint(0),
         18 => Item::int(-1),
-        19 => Item::uint(1 << 63),
+        19 => Item::uint(*rng.pick(&[1u64 << 63, (1u64 << 63) - 1, 1 << 32, (1 << 32) - 1])),
         20 => Item::uint(u64::MAX),
-        21 => Item::int(-(1i128 << 63) - 1),
+        21 => Item::int(*rng.pick(&[-(1i128 << 63) - 1, -(1i128 << 63), -(1i128 << 63) + 1, -(1i128 << 32) - 1])),
         22 => Item::int(-(1i128 << 64)),
         23 => Item::tag(2, Item::bytes(&[1, 0, 0, 0, 0, 0, 0, 0, 0])),
         24 => Item::tag(3, Item::bytes(&[0xff; 9])),
@@ -633,7 +652,12 @@ fn subst_palette(rng: &mut Rng) -> Item {
         30 => Item::int(-(*rng.pick(&[1i128, 2, 7, 24, 25, 256, 257, 65536, 65537]))),
         31 => Item::new(Kind::Simple(*rng.pick(&[0u8, 19, 32, 255]))),
         32 => Item::array(vec![Item::bytes(&[]), Item::map(vec![]), Item::bytes(&[])]),
-        _ => Item::array(vec![Item::bytes(&[]), Item::map(vec![]), Item::null(), Item::array(vec![])]),
+        _ => Item::array(vec![
+            Item::bytes(&[]),
+            Item::map(vec![]),
+            Item::null(),
+            Item::array(vec![]),
+        ]),
     }
 }
 
@@ -669,13 +693,35 @@ fn byzantine_tree(rng: &mut Rng, it: &mut Item, depth: usize) {
             *it = Item::new(match rng.below(3) {
                 0 => Kind::Float(2, *rng.pick(&[0x3c00u64, 0x7c00, 0x7e00, 0x0001, 0xfc00])),
                 1 => Kind::Float(4, *rng.pick(&[0x3fc0_0000u64, 0x7fc0_0000, 0xff80_0000])),
-                _ => Kind::Float(8, *rng.pick(&[0x7ff8_0000_0000_0001u64, 0x0000_0000_0000_0001, 0xfff0_0000_0000_0000])),
+                _ => Kind::Float(
+                    8,
+                    *rng.pick(&[
+                        0x7ff8_0000_0000_0001u64,
+                        0x0000_0000_0000_0001,
+                        0xfff0_0000_0000_0000,
+                    ]),
+                ),
             });
         }
         _ => {}
     }
     if rng.chance(1, 40) {
-        let t = *rng.pick(&[0u64, 1, 2, 3, 16, 17, 18, 24, 61, 96, 97, 98, 55799, u64::MAX]);
+        let t = *rng.pick(&[
+            0u64,
+            1,
+            2,
+            3,
+            16,
+            17,
+            18,
+            24,
+            61,
+            96,
+            97,
+            98,
+            55799,
+            u64::MAX,
+        ]);
         let inner = std::mem::replace(it, Item::null());
         *it = Item::tag(t, inner);
     }
@@ -685,9 +731,26 @@ fn byzantine_tree(rng: &mut Rng, it: &mut Item, depth: usize) {
 // one case
 // ------------------------------------------------------------------------------------------
 
-pub const BYTE_FAULTS: &[&str] = &["cut", "append", "dup", "flip", "set", "del", "ins", "splice", "head-inflate", "tag-rewrite", "coalesce"];
+pub const BYTE_FAULTS: &[&str] = &[
+    "cut",
+    "append",
+    "dup",
+    "flip",
+    "set",
+    "del",
+    "ins",
+    "splice",
+    "head-inflate",
+    "tag-rewrite",
+    "coalesce",
+];
 
-fn apply_byte_fault(rng: &mut Rng, b: &mut Vec<u8>, other: &[u8], cap: usize) -> Option<&'static str> {
+fn apply_byte_fault(
+    rng: &mut Rng,
+    b: &mut Vec<u8>,
+    other: &[u8],
+    cap: usize,
+) -> Option<&'static str> {
     let k = rng.below(BYTE_FAULTS.len());
     let before = b.clone();
     match BYTE_FAULTS[k] {
@@ -721,8 +784,16 @@ fn apply_byte_fault(rng: &mut Rng, b: &mut Vec<u8>, other: &[u8], cap: usize) ->
         "set" => {
             if !b.is_empty() {
                 let i = rng.below(b.len());
-                const V: &[u8] = &[0x00, 0x01, 0x17, 0x18, 0x1b, 0x20, 0x3b, 0x40, 0x5b, 0x5f, 0x60, 0x7f, 0x80, 0x9b, 0x9f, 0xa0, 0xbb, 0xbf, 0xc2, 0xc3, 0xd2, 0xdb, 0xf6, 0xf7, 0xf9, 0xfb, 0xff];
-                b[i] = if rng.bool() { *rng.pick(V) } else { rng.next_u64() as u8 };
+                const V: &[u8] = &[
+                    0x00, 0x01, 0x17, 0x18, 0x1b, 0x20, 0x3b, 0x40, 0x5b, 0x5f, 0x60, 0x7f, 0x80,
+                    0x9b, 0x9f, 0xa0, 0xbb, 0xbf, 0xc2, 0xc3, 0xd2, 0xdb, 0xf6, 0xf7, 0xf9, 0xfb,
+                    0xff,
+                ];
+                b[i] = if rng.bool() {
+                    *rng.pick(V)
+                } else {
+                    rng.next_u64() as u8
+                };
             }
         }
         "del" => {
@@ -735,7 +806,11 @@ fn apply_byte_fault(rng: &mut Rng, b: &mut Vec<u8>, other: &[u8], cap: usize) ->
         "ins" => {
             let i = rng.below(b.len() + 1);
             let n = rng.range(1, 8);
-            let ins = if rng.bool() { rng.bytes(n) } else { refcbor::encode(&subst_palette(rng)) };
+            let ins = if rng.bool() {
+                rng.bytes(n)
+            } else {
+                refcbor::encode(&subst_palette(rng))
+            };
             let tail = b.split_off(i);
             b.extend(ins);
             b.extend(tail);
@@ -757,7 +832,12 @@ fn apply_byte_fault(rng: &mut Rng, b: &mut Vec<u8>, other: &[u8], cap: usize) ->
                 let paths = refcbor::paths(&root);
                 let cands: Vec<&Vec<usize>> = paths
                     .iter()
-                    .filter(|p| matches!(refcbor::get(&root, p).map(|i| &i.kind), Some(Kind::Bytes(_) | Kind::Text(_) | Kind::Array(_) | Kind::Map(_))))
+                    .filter(|p| {
+                        matches!(
+                            refcbor::get(&root, p).map(|i| &i.kind),
+                            Some(Kind::Bytes(_) | Kind::Text(_) | Kind::Array(_) | Kind::Map(_))
+                        )
+                    })
                     .collect();
                 if !cands.is_empty() {
                     let p = cands[rng.below(cands.len())];
@@ -769,9 +849,23 @@ fn apply_byte_fault(rng: &mut Rng, b: &mut Vec<u8>, other: &[u8], cap: usize) ->
                             Kind::Array(_) => 4,
                             _ => 5,
                         };
-                        let big = *rng.pick(&[24u64, 255, 256, 65535, 65536, 1 << 24, (1 << 32) - 1, 1 << 32, 1 << 48, (1u64 << 63) - 1, 1 << 63, u64::MAX]);
+                        let big = *rng.pick(&[
+                            24u64,
+                            255,
+                            256,
+                            65535,
+                            65536,
+                            1 << 24,
+                            (1 << 32) - 1,
+                            1 << 32,
+                            1 << 48,
+                            (1u64 << 63) - 1,
+                            1 << 63,
+                            u64::MAX,
+                        ]);
                         let w = *rng.pick(&[8u8, 8, 4, 2]);
-                        let h = refcbor::head_width(major, big, w).unwrap_or_else(|| refcbor::head_width(major, big, 8).unwrap());
+                        let h = refcbor::head_width(major, big, w)
+                            .unwrap_or_else(|| refcbor::head_width(major, big, 8).unwrap());
                         let (s, e) = (it.start, it.start + it.head_len);
                         let tail = b.split_off(e);
                         b.truncate(s);
@@ -783,7 +877,24 @@ fn apply_byte_fault(rng: &mut Rng, b: &mut Vec<u8>, other: &[u8], cap: usize) ->
         }
         _ => {
             // tag-rewrite: prepend a tag head, or rewrite an existing leading tag
-            let t = *rng.pick(&[0u64, 1, 2, 3, 16, 17, 18, 19, 61, 96, 97, 98, 99, 55799, 1 << 32, u64::MAX]);
+            let t = *rng.pick(&[
+                0u64,
+                1,
+                2,
+                3,
+                16,
+                17,
+                18,
+                19,
+                61,
+                96,
+                97,
+                98,
+                99,
+                55799,
+                1 << 32,
+                u64::MAX,
+            ]);
             let w = *rng.pick(&[0u8, 1, 2, 4, 8]);
             let h = refcbor::head_width(6, t, w).unwrap_or_else(|| refcbor::head(6, t));
             if !b.is_empty() && b[0] >> 5 == 6 && rng.bool() {
@@ -814,7 +925,11 @@ pub fn gen_case(rng: &mut Rng, cap: usize) -> Case {
     // 1 in 6: nesting axes; 1 in 24: pure random bytes; otherwise corrupted valid traffic
     let mode = rng.below(24);
     if mode < 4 {
-        let cap2 = if rng.chance(1, 8) { cap } else { cap.min(16 << 10) };
+        let cap2 = if rng.chance(1, 8) {
+            cap
+        } else {
+            cap.min(16 << 10)
+        };
         let mut c = gen_nest(rng, cap2);
         if rng.chance(1, 4) {
             let mut b = c.bytes.clone();
@@ -827,12 +942,20 @@ pub fn gen_case(rng: &mut Rng, cap: usize) -> Case {
     }
     if mode == 4 {
         let n = rng.range(0, 64);
-        return Case { bytes: rng.bytes(n), faults: vec!["random-bytes".into()], base_type: "none".into(), depth: None };
+        return Case {
+            bytes: rng.bytes(n),
+            faults: vec!["random-bytes".into()],
+            base_type: "none".into(),
+            depth: None,
+        };
     }
     let ty = MESSAGE_TYPES[rng.below(MESSAGE_TYPES.len())];
     let tagged = TAGGABLE.contains(&ty) && rng.chance(1, 3);
     let cfg = match rng.below(16) {
-        0 => GenCfg { big: cap / 4, big_chance: 6 },
+        0 => GenCfg {
+            big: cap / 4,
+            big_chance: 6,
+        },
         1..=3 => GenCfg::medium(),
         _ => GenCfg::small(),
     };
@@ -887,5 +1010,10 @@ pub fn gen_case(rng: &mut Rng, cap: usize) -> Case {
     if bytes.len() > cap {
         bytes.truncate(cap);
     }
-    Case { bytes, faults, base_type: ty.to_string(), depth: None }
+    Case {
+        bytes,
+        faults,
+        base_type: ty.to_string(),
+        depth: None,
+    }
 }
